@@ -7,54 +7,161 @@ package diskfs
 // --- C03: every path handed to the OS is the root path followed by a reduced suffix ---
 //@ func (*Filespace).Copy [C03 C02]
 //@   at_call os.*,ioutil.*,disk.*,NewFilespace requires Confined(fs.path, $arg)
+// C02: exactly one host call, on exactly root ++ reduced(argument); its result is the result
+//@   at_call [C02] disk.Copy requires $0 == cat(fs.path, ReduceAbsPath(old(src)).0) && $1 == cat(fs.path, ReduceAbsPath(old(dest)).0)
+//@   trace [C02] disk.Copy as OS bind os0
+//@   trace_ensures [C02] ReduceAbsPath(old(src)).1 == nil && ReduceAbsPath(old(dest)).1 == nil : ^OS $
+//@   trace_ensures [C02] ReduceAbsPath(old(src)).1 != nil || ReduceAbsPath(old(dest)).1 != nil : ^$
+//@   ensures [C02] ReduceAbsPath(old(src)).1 == nil && ReduceAbsPath(old(dest)).1 == nil ==> result == os0
+//@   ensures [C02] ReduceAbsPath(old(src)).1 != nil || ReduceAbsPath(old(dest)).1 != nil ==> err != nil
 
 //@ func (*Filespace).CopyDirectory [C03 C02]
 //@   at_call os.*,ioutil.*,disk.*,NewFilespace requires Confined(fs.path, $arg)
+// C02: exactly one host call, on exactly root ++ reduced(argument); its result is the result
+//@   at_call [C02] disk.CopyDirectory requires $0 == cat(fs.path, ReduceAbsPath(old(src)).0) && $1 == cat(fs.path, ReduceAbsPath(old(dest)).0)
+//@   trace [C02] disk.CopyDirectory as OS bind os0
+//@   trace_ensures [C02] ReduceAbsPath(old(src)).1 == nil && ReduceAbsPath(old(dest)).1 == nil : ^OS $
+//@   trace_ensures [C02] ReduceAbsPath(old(src)).1 != nil || ReduceAbsPath(old(dest)).1 != nil : ^$
+//@   ensures [C02] ReduceAbsPath(old(src)).1 == nil && ReduceAbsPath(old(dest)).1 == nil ==> result == os0
+//@   ensures [C02] ReduceAbsPath(old(src)).1 != nil || ReduceAbsPath(old(dest)).1 != nil ==> err != nil
 
 //@ func (*Filespace).CopyFile [C03 C02]
 //@   at_call os.*,ioutil.*,disk.*,NewFilespace requires Confined(fs.path, $arg)
+// C02: exactly one host call, on exactly root ++ reduced(argument); its result is the result
+//@   at_call [C02] disk.CopyFile requires $0 == cat(fs.path, ReduceAbsPath(old(src)).0) && $1 == cat(fs.path, ReduceAbsPath(old(dest)).0)
+//@   trace [C02] disk.CopyFile as OS bind os0
+//@   trace_ensures [C02] ReduceAbsPath(old(src)).1 == nil && ReduceAbsPath(old(dest)).1 == nil : ^OS $
+//@   trace_ensures [C02] ReduceAbsPath(old(src)).1 != nil || ReduceAbsPath(old(dest)).1 != nil : ^$
+//@   ensures [C02] ReduceAbsPath(old(src)).1 == nil && ReduceAbsPath(old(dest)).1 == nil ==> result == os0
+//@   ensures [C02] ReduceAbsPath(old(src)).1 != nil || ReduceAbsPath(old(dest)).1 != nil ==> err != nil
 
 //@ func (*Filespace).ReadDir [C03 C02]
 //@   at_call os.*,ioutil.*,disk.*,NewFilespace requires Confined(fs.path, $arg)
+// C02: exactly one host call, on exactly root ++ reduced(argument); its result is the result
+//@   at_call [C02] io/ioutil.ReadDir requires $0 == cat(fs.path, ReduceAbsPath(old(subPath)).0)
+//@   trace [C02] io/ioutil.ReadDir as OS bind os0
+//@   trace_ensures [C02] ReduceAbsPath(old(subPath)).1 == nil : ^OS $
+//@   trace_ensures [C02] ReduceAbsPath(old(subPath)).1 != nil : ^$
+//@   ensures [C02] ReduceAbsPath(old(subPath)).1 == nil ==> infos == os0.0 && err == os0.1
+//@   ensures [C02] ReduceAbsPath(old(subPath)).1 != nil ==> err != nil
 
 //@ func (*Filespace).IsExist [C03 C02]
 //@   at_call os.*,ioutil.*,disk.*,NewFilespace requires Confined(fs.path, $arg)
+// C02: exactly one host call, on exactly root ++ reduced(argument); its result is the result
+//@   at_call [C02] disk.IsExist requires $0 == cat(fs.path, ReduceAbsPath(old(subPath)).0)
+//@   trace [C02] disk.IsExist as OS bind os0
+//@   trace_ensures [C02] ReduceAbsPath(old(subPath)).1 == nil : ^OS $
+//@   trace_ensures [C02] ReduceAbsPath(old(subPath)).1 != nil : ^$
+//@   ensures [C02] ReduceAbsPath(old(subPath)).1 == nil ==> result == os0
+//@   ensures [C02] ReduceAbsPath(old(subPath)).1 != nil ==> !result
 
 //@ func (*Filespace).IsFile [C03 C02]
 //@   at_call os.*,ioutil.*,disk.*,NewFilespace requires Confined(fs.path, $arg)
+// C02: exactly one host call, on exactly root ++ reduced(argument); its result is the result
+//@   at_call [C02] disk.IsFile requires $0 == cat(fs.path, ReduceAbsPath(old(src)).0)
+//@   trace [C02] disk.IsFile as OS bind os0
+//@   trace_ensures [C02] ReduceAbsPath(old(src)).1 == nil : ^OS $
+//@   trace_ensures [C02] ReduceAbsPath(old(src)).1 != nil : ^$
+//@   ensures [C02] ReduceAbsPath(old(src)).1 == nil ==> result == os0
+//@   ensures [C02] ReduceAbsPath(old(src)).1 != nil ==> !result
 
 //@ func (*Filespace).IsDir [C03 C02]
 //@   at_call os.*,ioutil.*,disk.*,NewFilespace requires Confined(fs.path, $arg)
+// C02: exactly one host call, on exactly root ++ reduced(argument); its result is the result
+//@   at_call [C02] disk.IsDir requires $0 == cat(fs.path, ReduceAbsPath(old(src)).0)
+//@   trace [C02] disk.IsDir as OS bind os0
+//@   trace_ensures [C02] ReduceAbsPath(old(src)).1 == nil : ^OS $
+//@   trace_ensures [C02] ReduceAbsPath(old(src)).1 != nil : ^$
+//@   ensures [C02] ReduceAbsPath(old(src)).1 == nil ==> result == os0
+//@   ensures [C02] ReduceAbsPath(old(src)).1 != nil ==> !result
 
 //@ func (*Filespace).MkdirAll [C03 C02]
 //@   at_call os.*,ioutil.*,disk.*,NewFilespace requires Confined(fs.path, $arg)
+// C02: exactly one host call, on exactly root ++ reduced(argument); its result is the result
+//@   at_call [C02] disk.MkdirAll requires $0 == cat(fs.path, ReduceAbsPath(old(path)).0) && $1 == filemode
+//@   trace [C02] disk.MkdirAll as OS bind os0
+//@   trace_ensures [C02] ReduceAbsPath(old(path)).1 == nil : ^OS $
+//@   trace_ensures [C02] ReduceAbsPath(old(path)).1 != nil : ^$
+//@   ensures [C02] ReduceAbsPath(old(path)).1 == nil ==> err == os0
+//@   ensures [C02] ReduceAbsPath(old(path)).1 != nil ==> err != nil
 
 //@ func (*Filespace).ReadFile [C03 C02]
 //@   at_call os.*,ioutil.*,disk.*,NewFilespace requires Confined(fs.path, $arg)
+// C02: exactly one host call, on exactly root ++ reduced(argument); its result is the result
+//@   at_call [C02] io/ioutil.ReadFile requires $0 == cat(fs.path, ReduceAbsPath(old(path)).0)
+//@   trace [C02] io/ioutil.ReadFile as OS bind os0
+//@   trace_ensures [C02] ReduceAbsPath(old(path)).1 == nil : ^OS $
+//@   trace_ensures [C02] ReduceAbsPath(old(path)).1 != nil : ^$
+//@   ensures [C02] ReduceAbsPath(old(path)).1 == nil ==> data == os0.0 && err == os0.1
+//@   ensures [C02] ReduceAbsPath(old(path)).1 != nil ==> err != nil
 
 //@ func (*Filespace).WriteFile [C03 C02]
 //@   at_call os.*,ioutil.*,disk.*,NewFilespace requires Confined(fs.path, $arg) || ($arg == pathdir(fullPath) && Confined(fs.path, fullPath))
+// C02: parents are created, then the bytes and the mode are handed over unchanged
+//@   at_call [C02] disk.MkdirAll requires $0 == pathdir(cat(fs.path, ReduceAbsPath(old(path)).0))
+//@   at_call [C02] io/ioutil.WriteFile requires $0 == cat(fs.path, ReduceAbsPath(old(path)).0) && $1 == data && $2 == perm
+//@   trace [C02] disk.MkdirAll as MK bind mk0
+//@   trace [C02] io/ioutil.WriteFile as WR bind wr0
+//@   trace_ensures [C02] ReduceAbsPath(old(path)).1 != nil : ^$
+//@   trace_ensures [C02] ReduceAbsPath(old(path)).1 == nil && mk0 != nil : ^MK $
+//@   trace_ensures [C02] ReduceAbsPath(old(path)).1 == nil && mk0 == nil : ^MK WR $
+//@   ensures [C02] ReduceAbsPath(old(path)).1 == nil && mk0 != nil ==> err == mk0
+//@   ensures [C02] ReduceAbsPath(old(path)).1 == nil && mk0 == nil ==> err == wr0
+//@   ensures [C02] ReduceAbsPath(old(path)).1 != nil ==> err != nil
 
 //@ func (*Filespace).Filespace [C03 C02]
 //@   at_call os.*,ioutil.*,disk.*,NewFilespace requires Confined(fs.path, $arg)
 
 //@ func (*Filespace).Reader [C03 C02 C04]
 //@   at_call os.*,ioutil.*,disk.*,NewFilespace requires Confined(fs.path, $arg)
+// C02: exactly one host call, on exactly root ++ reduced(argument); its result is the result
+//@   at_call [C02] os.OpenFile requires $0 == cat(fs.path, ReduceAbsPath(old(path)).0) && $1 == 0
+//@   trace [C02] os.OpenFile as OS bind os0
+//@   trace_ensures [C02] ReduceAbsPath(old(path)).1 == nil : ^OS $
+//@   trace_ensures [C02] ReduceAbsPath(old(path)).1 != nil : ^$
+//@   ensures [C02] ReduceAbsPath(old(path)).1 == nil ==> err == os0.1
+//@   ensures [C02] ReduceAbsPath(old(path)).1 != nil ==> err != nil
 
 //@ func (*Filespace).Writer [C03 C02 C04]
 //@   at_call [C03 C02] os.*,ioutil.*,disk.*,NewFilespace requires Confined(fs.path, $arg)
 // C04 / C02: a writer replaces the old content: the file is opened for writing, created when
 // missing and truncated (O_WRONLY or O_RDWR, O_CREATE = 64, O_TRUNC = 512)
 //@   at_call [C04 C02] os.OpenFile requires ($1 == 577 || $1 == 578)
+//@   at_call [C02] os.OpenFile requires $0 == cat(fs.path, ReduceAbsPath(old(path)).0)
+//@   trace [C02] os.OpenFile as OS bind os0
+//@   trace_ensures [C02] ReduceAbsPath(old(path)).1 != nil : ^$
+//@   ensures [C02] ReduceAbsPath(old(path)).1 == nil ==> err == os0.1
+//@   ensures [C02] err != nil ==> w == nil
 
 //@ func (*Filespace).Remove [C03 C02]
 //@   at_call os.*,ioutil.*,disk.*,NewFilespace requires Confined(fs.path, $arg)
+// C02: exactly one host call, on exactly root ++ reduced(argument); its result is the result
+//@   at_call [C02] os.Remove requires $0 == cat(fs.path, ReduceAbsPath(old(path)).0)
+//@   trace [C02] os.Remove as OS bind os0
+//@   trace_ensures [C02] ReduceAbsPath(old(path)).1 == nil : ^OS $
+//@   trace_ensures [C02] ReduceAbsPath(old(path)).1 != nil : ^$
+//@   ensures [C02] ReduceAbsPath(old(path)).1 == nil ==> err == os0
+//@   ensures [C02] ReduceAbsPath(old(path)).1 != nil ==> err != nil
 
 //@ func (*Filespace).RemoveAll [C03 C02]
 //@   at_call os.*,ioutil.*,disk.*,NewFilespace requires Confined(fs.path, $arg)
+// C02: exactly one host call, on exactly root ++ reduced(argument); its result is the result
+//@   at_call [C02] os.RemoveAll requires $0 == cat(fs.path, ReduceAbsPath(old(path)).0)
+//@   trace [C02] os.RemoveAll as OS bind os0
+//@   trace_ensures [C02] ReduceAbsPath(old(path)).1 == nil : ^OS $
+//@   trace_ensures [C02] ReduceAbsPath(old(path)).1 != nil : ^$
+//@   ensures [C02] ReduceAbsPath(old(path)).1 == nil ==> err == os0
+//@   ensures [C02] ReduceAbsPath(old(path)).1 != nil ==> err != nil
 
 //@ func (*Filespace).Lstat [C03 C02]
 //@   at_call os.*,ioutil.*,disk.*,NewFilespace requires Confined(fs.path, $arg)
+// C02: exactly one host call, on exactly root ++ reduced(argument); its result is the result
+//@   at_call [C02] os.Lstat requires $0 == cat(fs.path, ReduceAbsPath(old(path)).0)
+//@   trace [C02] os.Lstat as OS bind os0
+//@   trace_ensures [C02] ReduceAbsPath(old(path)).1 == nil : ^OS $
+//@   trace_ensures [C02] ReduceAbsPath(old(path)).1 != nil : ^$
+//@   ensures [C02] ReduceAbsPath(old(path)).1 == nil ==> info == os0.0 && err == os0.1
+//@   ensures [C02] ReduceAbsPath(old(path)).1 != nil ==> err != nil
 
 //@ type Filespace
 //@   field path immutable
